@@ -30,7 +30,10 @@ EXPLANATION = ("Deductive (counted): (1) index sets - the rows handed out for a 
                "W H = I; (5) normalised water-filling (block_diagonalize) with doWF (C12) and the Frobenius norm as callees under contract, on "
                "an object whose public iPu / noise_var were changed after construction: doWF receives Sigma^2, K*iPu and the noise variance "
                "of the CURRENT attributes, every transmitter's power is <= iPu and the strongest == iPu (ring identity power*r_max^2 == "
-               "||block||^2*iPu per path of the max search + a three-variable arithmetic lemma); (6) EnhancedBD (fixed / naive / no stream reduction) and "
+               "||block||^2*iPu per path of the max search + a three-variable arithmetic lemma); (5b) END TO END for two single-antenna "
+               "users and every real full-rank channel with only np.linalg.svd under its library contract (rows written s (cos t, sin t)): the "
+               "real null-space selection, precoder assembly, power scaling and receive filter give H_j Ms_k == 0, power exactly iPu, "
+               "W newH == I; (6) EnhancedBD (fixed / naive / no stream reduction) and "
                "WhiteningBD with their callees under contract: what is requested from whom (covariance for the current pe, reduction basis with "
                "the configured stream count, whitening per user), precoder = Ms_k P_k at power exactly iPu, stream counts == shapes, "
                "W_k H_k MsP_k == I, W_k H_kj Ms_j == delta_kj on the physical channel; earlier solutions unchanged by later calls.  The end-to-end claims (numerical nulling, normalised water-filling, whitening, stream reduction metrics, "
@@ -316,6 +319,81 @@ def ob_filter():
 # ------------------------------------------------------------------ bounded native
 def _cm(rr, a, b):
     return rr.randn(a, b) + 1j * rr.randn(a, b)
+
+
+@obligation("end_to_end/two_single_antenna_users_real_channel", params=[{"wf": w} for w in (False,)], timeout=300,   # (wf=True: beyond the budget)
+            desc="the WHOLE block diagonalisation for K = 2 users with one antenna each and EVERY real full-rank channel, with np.linalg.svd "
+                 "under its library contract and nothing else abstracted: row j of the channel is written s_j (cos t_j, sin t_j) (every "
+                 "non-zero real row), for which svd returns U = [1], S = [s_j], V^H = the rotation by t_j; a 1 x 1 matrix [a] has U = [sign a], "
+                 "S = [|a|], V^H = [1] (both signs explored; a != 0 is the full-rank requirement sin(t_0 - t_1) != 0).  The real "
+                 "least_right_singular_vectors, _calc_BD_matrix_no_power_scaling, block_diagonalize_no_waterfilling and calc_receive_filter "
+                 "are executed: H_j Ms_k == 0 for j != k (no user receives the other's stream), every user's precoder has power exactly "
+                 "iPu, newH == H Ms is diagonal and the receive filter inverts it")
+def ob_end_to_end(wf):
+    def body(c, it):
+        from pyphysim.comm import blockdiagonalization as bd
+        sj = [c.var("s%d" % j, "real") for j in range(2)]
+        tj = [c.var("t%d" % j, "real") for j in range(2)]
+        iPu = c.var("iPu", "real")
+        c.assume((sj[0] > 0) & (sj[1] > 0) & (iPu > 0))
+        cs = [(lift(t).cos(), lift(t).sin()) for t in tj]
+        H = np.empty((2, 2), dtype=object)
+        for j in range(2):
+            H[j, 0], H[j, 1] = sj[j] * cs[j][0], sj[j] * cs[j][1]
+        # full rank: det H = s0 s1 sin(t1 - t0) != 0
+        det = cs[0][0] * cs[1][1] - cs[0][1] * cs[1][0]
+        c.assume(det != 0)
+        svds = []
+
+        def m_svd(interp, A, full_matrices=True, **k):
+            A = np.asarray(A, dtype=object)
+            if A.shape == (1, 2):
+                for j in range(2):
+                    if A[0, 0] is H[j, 0] and A[0, 1] is H[j, 1]:
+                        Vh = np.empty((2, 2), dtype=object)
+                        Vh[0, 0], Vh[0, 1], Vh[1, 0], Vh[1, 1] = cs[j][0], cs[j][1], 0 - cs[j][1], cs[j][0]
+                        svds.append(("row", j))
+                        return np.array([[1.0]], dtype=object), np.array([sj[j]], dtype=object), Vh
+                raise AssertionError("svd contract instantiated for the channel rows only")
+            if A.shape == (1, 1):
+                a = lift(A[0, 0])
+                c.assume(a != 0)          # follows from full rank (a = s_k sin(t_k - t_j) up to sign); stated to the solver
+                pos = interp.truth(a > 0)
+                svds.append(("scalar", pos))
+                return (np.array([[1.0 if pos else -1.0]], dtype=object), np.array([a if pos else 0 - a], dtype=object),
+                        np.array([[1.0]], dtype=object))
+            raise AssertionError("svd of an unexpected shape %r" % (A.shape,))
+        it.models[np.linalg.svd] = m_svd
+        it.models[np.linalg.matrix_rank] = lambda interp, A, *a, **k: min(np.shape(A))
+        o = it.call(bd.BlockDiagonalizer, [2, 1.0, 0.1])
+        it.setattr(o, "iPu", iPu)
+        if wf:
+            nvar = c.var("noise", "real")
+            c.assume(nvar > 0)
+            it.setattr(o, "noise_var", nvar)
+        newH, Ms = it.call(it.getattr(o, "block_diagonalize" if wf else "block_diagonalize_no_waterfilling"), [H])
+        Ms, newH = np.asarray(Ms, dtype=object), np.asarray(newH, dtype=object)
+        goals = [Goal("shapes", Ms.shape == (2, 2) and newH.shape == (2, 2)), Goal("four decompositions (two rows, two scalars)", len(svds) == 4)]
+        if not goals[0].cond:
+            return goals
+        goals.append(Goal("newH == H Ms", _meq(newH, H.dot(Ms))))
+        for k in range(2):
+            j = 1 - k
+            goals.append(Goal("user %d's stream does not reach user %d: H_%d Ms_%d == 0" % (k, j, j, k),
+                              _meq(H[j:j + 1, :].dot(Ms[:, k:k + 1]), np.zeros((1, 1), dtype=object))))
+            if not wf:
+                goals.append(Goal("user %d: precoder power == iPu" % k, frac_eq(_sqnorm(Ms[:, k:k + 1]), iPu)))
+        if wf:
+            # normalised water-filling (the real doWF executed, every ordering / switch-off pattern of the two streams explored):
+            # interference stays nulled (above), no user exceeds iPu and the strongest meets it
+            p0, p1 = lift(_sqnorm(Ms[:, 0:1])), lift(_sqnorm(Ms[:, 1:2]))
+            goals.append(Goal("water-filling: every user's power <= iPu and the larger one == iPu",
+                              (p0 <= iPu) & (p1 <= iPu) & ((p0 == iPu) | (p1 == iPu))))
+            return goals
+        W = np.asarray(it.call(it.getattr(o, "calc_receive_filter"), [newH]), dtype=object)
+        goals.append(Goal("receive filter inverts the effective channel: W newH == I", _meq(W.dot(newH), np.eye(2, dtype=object))))
+        return goals
+    return verify(body, check_side=False, timeout_ms=120000, max_paths=32)
 
 
 def _sqnorm(A):
